@@ -13,6 +13,7 @@ pub const PH_CALL_LIVE: u64 = 2;
 pub const PH_DROP: u64 = 3;
 pub const PH_CALL_AFTER: u64 = 4;
 pub const PH_OTHER: u64 = 5;
+pub const PH_OBSERVER: u64 = 6;
 pub const PH_DONE: u64 = 9;
 
 impl Shared {
